@@ -36,6 +36,8 @@ CHECKS["C20"] = dict(
         dict(pkg="server", name="C20_lockqueue", bound="all programs of 6 operations over 8 opcodes; constructor parameters base 1..2, nodes 1..3, size 1..2", flags=["-witness", "100000"], reach=["end"]),
         dict(pkg="server", name="C20_deques", bound="LockQueue, LockCommandQueue and LockManagerQueue behind one adaptor: all programs of 5 operations over 10 opcodes (Push, Pop, PopRight, PushLeft, Head+Tail, Resize, Restructuring, Reset, Rellac on a drained queue, iteration); constructor parameters (1,3,2) and (2,2,1)", flags=["-witness", "50000"], reach=["end"]),
         dict(pkg="server", name="C20_ring", bound="LockManagerRingQueue and LockManagerPriorityRingQueue (capacity 1..2): all programs of 5 operations (Push with priority 0..2, Pop, Head+MaxPriority+iteration) against a FIFO / stable priority queue", flags=["-witness", "20000"], reach=["end"]),
+        dict(pkg="server", name="C20_waitqueue", bound="LockManagerWaitQueue pre-filled with 0 / 7 / 8 / 9 / 150 / 300 waiters (inline slice, its compaction and growth, overflow ring), 0 / 1 / 5 popped, then every program of 4 operations from {push priority 0, push priority 1, pop, observe head+length+iteration, switch to priority mode (RePushPriorityRingQueue)} against a FIFO / stable priority queue", flags=["-witness", "500"], reach=["end"]),
+        dict(pkg="server", name="C20_holdqueue", bound="LockManagerLockQueue pre-filled with 0 / 5 / 6 / 7 / 140 / 300 holders (inline slice, compaction, scale queue + id map), then every program of 4 operations from {push, pop first live, release an entry in place (first / middle / last), iterate live entries, GetLock of a live entry}", flags=["-witness", "1000"], reach=["end"]),
         dict(pkg="server", name="C20_lockqueue7", bound="as C20_lockqueue with 7 operations", flags=["-witness", "1000000"], reach=["end"], thorough_only=True),
         dict(pkg="server", name="C20_deques7", bound="as C20_deques with 7 operations and constructor parameters (1,1,1), (1,3,2), (2,2,1), (2,3,2)", flags=["-witness", "1000000"], reach=["end"], thorough_only=True),
         dict(pkg="server", name="C20_ring8", bound="as C20_ring with 8 operations", flags=["-witness", "1000000"], reach=["end"], thorough_only=True),
@@ -54,7 +56,8 @@ CHECKS["C03"] = dict(
     explanation="bounded symbolic execution; reply accounting on the real MemWaiter protocols' result callbacks",
     assumptions=[],
     harnesses=[dict(pkg="server", name="C03_step", bound=_STEP_BOUND, flags=["-witness", "500"], reach=["end", "queued", "waiter-ended", "expired"]),
-               dict(pkg="server", name="C03_relock", bound="hold by connection A (symbolic Count/Rcount), re-entrant re-lock / update / no-op update of the same LockId by connection B (symbolic Rcount), then 12 s through the real sweeps", flags=["-witness", "5"], reach=["end", "terms-replaced"])],
+               dict(pkg="server", name="C03_relock", bound="hold by connection A (symbolic Count/Rcount), re-entrant re-lock / update / no-op update of the same LockId by connection B (symbolic Rcount), then 12 s through the real sweeps", flags=["-witness", "5"], reach=["end", "terms-replaced"]),
+               dict(pkg="server", name="C05_ms", bound="a queued request with the millisecond flag and T in {1, 500, 2999, 3000, 3300, 7000, 59999} ms; the holder leaves before the slot sweep or never; the recorded sweeper goroutine (checkMillisecondTimeOut) run at its slot time, then T/1000+2 seconds through the real per-second sweeps", flags=[], reach=["end", "granted"], native=False)],
 )
 CHECKS["C04"] = dict(
     explanation="bounded symbolic execution; quiescence and service-order oracle",
@@ -80,6 +83,8 @@ CHECKS["C13"] = dict(
         dict(pkg="server", name="C13_textcmd", bound="one text command out of the 27 registered key-value/keyspace/session commands (and an unknown one) with 0..3 arguments, each argument one of: the key, a value, 2 symbolic ASCII bytes (so every two-character option word, number or garbage), EX, NX, MATCH; real TextServerProtocol handler + converter + LockDB on a fresh server", flags=["-witness", "2000"], reach=["end"], allow=["blocked"]),
         dict(pkg="server", name="C13_textcmd2", bound="a first command creating a string / number / plain hold (5 shapes), then any command as in C13_textcmd with 0..2 arguments on the same or a second connection", flags=["-witness", "2000"], reach=["end", "first-done"], allow=["blocked"]),
         dict(pkg="server", name="C13_textlock", bound="LOCK / UNLOCK / PUSH with key and 0..4 further arguments: option word from all 15 recognised (and an unknown one) alternating with a value out of 0, 1..2 symbolic ASCII bytes, UNLOCK, v", flags=["-witness", "2000"], reach=["end"], allow=["blocked"]),
+        dict(pkg="server", name="C13_textseq", bound="every program of 3 well-formed commands out of 14 forms (SET/GET hit/GET miss/LOCK/LOCK with value/UNLOCK/LOCK Timeout 0/DEL/INCR/APPEND/EXISTS/PUSH/TTL) on one text connection, then a command on a second connection", flags=["-witness", "200"], reach=["end"], allow=["blocked"]),
+        dict(pkg="server", name="C13_textseq4", bound="as C13_textseq with 4 commands", flags=["-witness", "2000"], reach=["end"], allow=["blocked"], thorough_only=True),
         dict(pkg="server", name="C13_textcmd4", bound="as C13_textcmd with 0..4 arguments and the full alphabet (also 1 symbolic byte, PX, COUNT)", flags=["-witness", "20000"], reach=["end"], allow=["blocked"], thorough_only=True),
         dict(pkg="server", name="C13_textcmd2x", bound="as C13_textcmd2 with 0..3 arguments and the full alphabet", flags=["-witness", "20000"], reach=["end", "first-done"], allow=["blocked"], thorough_only=True),
         dict(pkg="server", name="C13_binframe_other", bound="any 64-byte frame whose type is not LOCK/UNLOCK (INIT, STATE, ADMIN + 8 bytes of text input, PING, QUIT, CALL with content-length classes, WILL_LOCK/WILL_UNLOCK, LEADER, SUBSCRIBE, unknown types, wrong magic/version), followed by 8 arbitrary bytes and end of input; time values and database ids in classes", flags=["-witness", "500"], reach=["end"]),
@@ -106,6 +111,7 @@ CHECKS["C05"] = dict(
         dict(pkg="server", name="C05_deadline", bound="every 16-bit T, seconds and minute flag (symbolic); T = 0 immediate TIMEOUT", flags=["-witness", "1"], reach=["end", "zero"]),
         dict(pkg="server", name="C05_sim", bound="T in 1..12 s (crosses the 8 re-checks that move an entry to the long-wait table), a second waiter with T2 in 1..3, ticks 1..T+3; variants: undisturbed / holder unlocks at any tick before the deadline / holder unlocks after the timeout", flags=["-witness", "20"], reach=["end", "granted-before-timeout", "not-granted-after-timeout"]),
         dict(pkg="server", name="C05_long", bound="three successive waits of T=100 s that reach the long-wait table (~44 s); the first two cancelled at a forked tick after migrating, bucket queues recycled; tick by tick through the real sweeps (~300 ticks)", flags=["-witness", "1"], reach=["end"]),
+        dict(pkg="server", name="C05_ms", bound="a queued request with the millisecond flag and T in {1, 500, 2999, 3000, 3300, 7000, 59999} ms; the holder leaves before the slot sweep or never; the recorded sweeper goroutine (checkMillisecondTimeOut) run at its slot time, then T/1000+2 seconds through the real per-second sweeps", flags=[], reach=["end", "granted", "ms-timeout", "s-timeout"], native=False),
     ],
 )
 CHECKS["C06"] = dict(
@@ -116,6 +122,7 @@ CHECKS["C06"] = dict(
         dict(pkg="server", name="C06_sim", bound="E in 1..12 s, ticks 1..E+15; variants: undisturbed / re-entrant re-lock at any tick before the deadline restarts the period / unlimited flag; a queued request must be served at the expiry tick", flags=["-witness", "10"], reach=["end", "relocked"]),
         dict(pkg="server", name="C06_update", bound="every E1, E2 != 0 with seconds/minute flags, update issued 0 or 1 s after the grant: deadline restarted from now or ignored, ignored only within one unit", flags=["-witness", "1", "-timeout", "5000"], reach=["end", "restarted", "ignored"]),
         dict(pkg="server", name="C06_long", bound="hold placed in the long-expiry table at once (zero-aof-time flag, E in 6..8), updated at tick 1..3 to E2 in {20, 30, 4}; 45 ticks", flags=["-witness", "3"], reach=["end", "updated"]),
+        dict(pkg="server", name="C06_ms", bound="a hold with the millisecond flag and E in {1, 500, 2999, 3000, 3300, 7000, 59999} ms and one waiter; released before the slot sweep or not; checkMillisecondExpried run at its slot time, then E/1000+2 seconds of real sweeps", flags=[], reach=["end", "ms-expired", "s-expired"], native=False),
     ],
 )
 
@@ -125,6 +132,7 @@ CHECKS["C08"] = dict(
     harnesses=[
         dict(pkg="server", name="C08_cut", bound="header + 1..3 records of 64 symbolic bytes (no attached values), cut at every byte offset 0..len", flags=["-witness", "20"], reach=["end"]),
         dict(pkg="server", name="C08_append", bound="header + 2 records cut at every offset, then reopen for append, write one symbolic record, flush, reload", flags=["-witness", "100"], reach=["end"]),
+        dict(pkg="server", name="C08_valcut", bound="complete record file of 1..3 symbolic records, each with or without a value frame of 0..3 symbolic bytes; the value file cut at every byte offset", flags=["-witness", "20"], reach=["end"]),
     ],
 )
 
@@ -143,6 +151,7 @@ CHECKS["C16"] = dict(
     assumptions=["file model: every create / write / remove / rename / truncate is atomic and durable in program order"],
     harnesses=[
         dict(pkg="server", name="C16_whole", bound="history: 2 holds on 2 keys, one released, a re-entrant hold entered 3 times and left once (live at depth 2), rotation, optionally a further hold in the new append file; uninterrupted compaction", flags=["-witness", "1"], reach=["end"]),
+        dict(pkg="server", name="C16_update", bound="a persisted hold (E=100 s or min) whose holder changes its terms one second later (update flag: E=200/300, optionally Count 3), then 0 / 1 / 3 / 70 s pass before rotation and uninterrupted compaction; holds recovered with deadlines, Count, Rcount compared", flags=["-witness", "1"], reach=["end"]),
         dict(pkg="server", name="C16_crash", bound="same history; crash after each individual file-system mutation of the compaction (fork over all of them)", flags=[], reach=["end", "window"], native=False),
         dict(pkg="server", name="C16_renamefail", bound="same history; the directory image of the remove-before-rename window produced without a crash (native twin of the recorded finding)", flags=["-witness", "1"], reach=[]),
     ],
@@ -154,6 +163,7 @@ CHECKS["C11"] = dict(
     harnesses=[
         dict(pkg="server", name="C11_ack", bound="one ack-required LOCK (plus one queued ordinary request), 0..2 followers, ack mode all / majority, every sequence of <=4 events from {leader flush, follower ack ok, follower ack negative, UNLOCK same LockId, LOCK same LockId, ack wait times out}", flags=["-witness", "50"],
              reach=["end", "succed", "nack", "ack-timeout", "unlock-waiting", "lock-waiting", "rolled-back"]),
+        dict(pkg="server", name="C11_value", bound="an ack-required LOCK carrying a value operation (any operation compatible with the current value: none or the result of a first symbolic operation), granted at once or from the wait queue, one follower in mode all; outcome success / negative acknowledgement / ack wait timeout; one queued request behind it", flags=["-witness", "10"], reach=["end", "succed", "nack", "ack-timeout", "granted-from-queue"]),
     ],
 )
 
@@ -201,6 +211,7 @@ CHECKS["C15"] = dict(
     assumptions=["well-formed frames built by the client-side constructors (hostile frames are C13's subject)", "operations follow the value's kind; behaviour on kind mismatch is unspecified and not asserted"],
     harnesses=[
         dict(pkg="server", name="C15_ops", bound="every sequence of 3 operations from SET / UNSET / INCR (symbolic 64-bit) / APPEND / SHIFT (within the value) / PUSH / POP (1..2) with payloads of 1..3 symbolic bytes, carried by LOCK requests of 3 LockIds", flags=["-witness", "20"], reach=["end"]),
+        dict(pkg="server", name="C15_props", bound="as C15_ops, each SET / INCR / APPEND / PUSH frame with or without a property block (key property of 1..2 symbolic bytes), decided per operation", flags=["-witness", "200"], reach=["end"]),
         dict(pkg="server", name="C15_refused", bound="a held key with a 1..3-byte value; a refused LOCK (immediate TIMEOUT) or UNLOCK (UNOWN_ERROR) carrying a SET", flags=["-witness", "1"], reach=["end"]),
         dict(pkg="server", name="C15_unlock", bound="SET/APPEND (1..2 symbolic bytes) carried by a plain unlock, a re-entrant re-lock, an unlock of one level and an unlock of all levels of a depth-2 hold", flags=["-witness", "5"], reach=["end"]),
     ],
